@@ -230,6 +230,12 @@ fn shape_list(thorough: bool) -> Vec<Vec<f64>> {
         shapes(&[1.0, 2.0, 3.0, 4.0, 5.0, 6.0], 6)
     };
     v.extend(shapes(&nasty_values(), if thorough { 4 } else { 3 }));
+    // big functions around size thresholds
+    for n in threshold_sizes(thorough) {
+        if n <= if thorough { 1025 } else { 257 } {
+            v.push(iota(n));
+        }
+    }
     v
 }
 
@@ -347,7 +353,7 @@ fn main() {
         "distinct_nontrivial": nontrivial,
         "nontrivial_rule": "transition that moves the cursor backwards or whose query equals an end",
         "shapes": sl.len(), "longest_shortest_history": max_hist, "exhaustive": violation.is_none(),
-        "bounds": if thorough {"all end lists of length 1..8 over {1..8} and 1..4 over the nasty value set; histories of every length over A(ends)"} else {"all end lists of length 1..6 over {1..6} and 1..3 over the nasty value set; histories of every length over A(ends)"},
+        "bounds": if thorough {"all end lists of length 1..8 over {1..8}, 1..4 over the nasty value set, and 1..n for the threshold sizes up to 1025; histories of every length over A(ends)"} else {"all end lists of length 1..6 over {1..6}, 1..3 over the nasty value set, and 1..n for the threshold sizes up to 257; histories of every length over A(ends)"},
         "with_nan_queries": with_nan,
         "closure_check": "every state reached by any history of depth <= 3 (2 for large alphabets) is in the fixpoint",
         "stateright_cross_check": sr_json,
